@@ -20,6 +20,8 @@ using L3 = Eigen::Matrix<long double, 3, 3>;
 
 namespace {
 
+bool g_th = false;   // thorough tier: denser catalogues
+
 L3 refR(long double r, long double p, long double y) {
   L3 Rx, Ry, Rz;
   Rx << 1, 0, 0, 0, cosl(r), -sinl(r), 0, sinl(r), cosl(r);
@@ -47,7 +49,9 @@ std::vector<M6> cov_catalogue() {
 
 std::vector<Eigen::Vector3d> attitudes() {
   std::vector<Eigen::Vector3d> v;
-  for (double r : {0.0, 0.7, -2.5, 3.0}) for (double p : {0.0, 0.3, -1.2, M_PI / 2 - 1.5e-3, M_PI / 2 - 2e-3, -(M_PI / 2 - 4e-3), M_PI / 2 - 0.01}) for (double y : {0.0, 0.4, -3.0, 5.5}) v.push_back({r, p, y});
+  std::vector<double> rs = {0.0, 0.7, -2.5, 3.0}, ps = {0.0, 0.3, -1.2, M_PI / 2 - 1.5e-3, M_PI / 2 - 2e-3, -(M_PI / 2 - 4e-3), M_PI / 2 - 0.01}, ys = {0.0, 0.4, -3.0, 5.5};
+  if (g_th) { for (double x : {M_PI / 2, -M_PI / 2, M_PI, 1e-9, -0.3, 6.2}) rs.push_back(x); for (double x : {-0.3, 0.9, 1.2, -1.5, 1.55, -(M_PI / 2 - 1.1e-3), M_PI / 2 - 3e-3, -(M_PI / 2 - 0.02)}) ps.push_back(x); for (double x : {M_PI / 2, -M_PI / 2, M_PI, -1e-9, 2.0, -6.0}) ys.push_back(x); }
+  for (double r : rs) for (double p : ps) for (double y : ys) v.push_back({r, p, y});
   return v;
 }
 std::vector<Eigen::Vector3d> positions() { return {{0, 0, 0}, {1, -1, 0.5}, {1e4, -1e4, 10}, {-3.2, 7.7, -1e4}}; }
@@ -63,6 +67,7 @@ std::vector<Eigen::Affine3d> transforms() {
   Rs.push_back(Eigen::AngleAxisd(-1.1, Eigen::Vector3d(1, 1, 0).normalized()).toRotationMatrix());
   Rs.push_back(Eigen::AngleAxisd(2.7, Eigen::Vector3d(-2, 1, 3).normalized()).toRotationMatrix());
   Rs.push_back((Eigen::AngleAxisd(1.1, Eigen::Vector3d::UnitX()) * Eigen::AngleAxisd(-0.7, Eigen::Vector3d::UnitY())).toRotationMatrix());
+  if (g_th) for (Eigen::Vector3d ax : {Eigen::Vector3d(1, 0, 0), Eigen::Vector3d(0, 1, 0), Eigen::Vector3d(1, -1, 1), Eigen::Vector3d(0.1, -1, 0.2)}) for (double a : {1e-3, 1.0, -2.5, M_PI - 1e-3}) Rs.push_back(Eigen::AngleAxisd(a, ax.normalized()).toRotationMatrix());
   for (auto& R : Rs) for (auto& t : ts) { Eigen::Affine3d T = Eigen::Affine3d::Identity(); T.linear() = R; T.translation() = t; v.push_back(T); }
   return v;
 }
@@ -184,15 +189,17 @@ void ellipses(vf::Ctx& c, bool th) {
 
 }  // namespace
 
-uint64_t vf_ncases(const std::string& tier) { return 2 + transforms().size(); }
+uint64_t vf_ncases(const std::string& tier) { g_th = tier == "thorough"; return 2 + transforms().size(); }
 
 void vf_run(uint64_t idx, const std::string& tier, vf::Ctx& c) {
-  bool th = tier == "thorough";
+  bool th = tier == "thorough"; g_th = th;
   if (idx == 0) reductions(c); else if (idx == 1) ellipses(c, th); else group_action(c, idx - 2);
 }
 
 std::string vf_describe(const std::string& tier) {
+  g_th = tier == "thorough";
   vf::JO o;
+  o.str("thorough_extension", "attitudes: 10 rolls x 15 pitches (down to 1.1e-3 rad from gimbal lock) x 10 yaws; 16 more rotations x 3 translations");
   o.u("covariances", cov_catalogue().size()).u("attitudes", attitudes().size()).u("positions", positions().size()).u("transforms", transforms().size());
   o.str("covariance_catalogue", "Q diag(d) Q^T, d from 7 patterns over {0,1e-8,1e-4,1,..,1e4} (rank-deficient included), Q identity or a product of 15 Givens rotations (3 variants)");
   o.str("attitudes", "roll {0,0.7,-2.5,3} x pitch {0,0.3,-1.2,pi/2-1.5e-3,pi/2-2e-3,-(pi/2-4e-3),pi/2-0.01} x yaw {0,0.4,-3,5.5}; cases within 1e-3 rad of gimbal lock before or after the transform are skipped (trivial)");
